@@ -121,6 +121,17 @@ CLAIMED = {
          "positions. Runtime half (support): every registry function on generated valid inputs, 1-4 D, sizes to 40, neighbourhoods "
          "larger than the image, random layouts, in isolated workers on an AddressSanitizer build of the current tree",
          "Rocq proof (index arithmetic) + translator + AddressSanitizer runs of generated inputs"),
+ "C11": ("proof", "partial: the guard logic is proved, crash- and hang-freedom of the compiled code is observed. Coq theorems: the "
+         "argument guards of all 51 native entry points are RE-TRANSLATED from the C++ sources on every run into boolean functions "
+         "over argument descriptors (array-ness, rank, shape, type class, contiguity, scalar ranges); passing the guards of the "
+         "neighbourhood, extrema, template, find, majority, filter, labelled, slic, distance-transform and 2-D kernels implies the "
+         "rank/shape/type/size facts those kernels rely on (equal ranks, output of the input's shape, positive spacing, no "
+         "zero-length axis, ...); the Python raise sites that protect kernels without native checks (re-translated from the "
+         "wrappers' ast) are present. Runtime half (support): every registry function x a grammar of degenerate arguments (0-d, "
+         "empty, rank +/-1, wrong dtype, mismatched shapes, non-arrays, extreme values, 0/negative/huge/NaN scalars incl. every "
+         "defaulted parameter, every border mode) in isolated workers with a per-call alarm and RLIMIT_AS, and again on the "
+         "AddressSanitizer build",
+         "Rocq proof (guards imply kernel preconditions) + C++/Python guard translator + isolated-process degenerate-argument runs"),
 }
 NOT_YET = "check not built yet in this round (see DESIGN.md section 8 for the plan)"
 ALL = ["C%02d" % i for i in range(1, 21)]
